@@ -184,4 +184,158 @@ theorem removeOpcodeByData_eq_findAndDelete (s sig : Bytes) (h : parses s = true
           simp [this, hraw]
 
 
+/-- a token re-parses as itself whatever follows it -/
+def TokWF (t : Tok) : Prop := ∀ r' : Bytes, nextTok (t.raw ++ r') = some (t, r')
+
+theorem nextTok_wf (s : Bytes) (t : Tok) (r : Bytes) (h : nextTok s = some (t, r)) : TokWF t := by
+  intro r'
+  unfold nextTok at h
+  cases s with
+  | nil => simp at h
+  | cons op rest =>
+    simp only at h
+    by_cases hp : isPushOp op = true
+    · simp only [hp, if_true] at h
+      generalize hhb : hdrLen op = hb at h
+      by_cases c1 : rest.length < hb
+      · simp [c1] at h
+      · simp only [c1, if_false] at h
+        generalize hn : (if hb = 0 then op.toNat else leNat (rest.take hb)) = n at h
+        by_cases c2 : n ≥ 2^31
+        · simp [c2] at h
+        · by_cases c3 : (rest.drop hb).length < n
+          · exfalso
+            simp [c2] at h
+            simp at c3
+            omega
+          · simp only [c2, c3, if_false, Option.some.injEq, Prod.mk.injEq] at h
+            obtain ⟨ht, _⟩ := h
+            subst ht
+            have hlen : hb + n ≤ rest.length := by
+              simp at c3 c1; omega
+            simp only [List.cons_append]
+            unfold nextTok
+            simp only [hp, if_true, hhb]
+            have l1 : (rest.take (hb + n) ++ r').length = hb + n + r'.length := by
+              simp [List.length_take]; omega
+            have t1 : (rest.take (hb + n) ++ r').take hb = rest.take hb := by
+              rw [List.take_append_of_le_length (by simp only [List.length_append, List.length_drop, List.length_take]; omega)]
+              rw [List.take_take]; congr 1; omega
+            have c1' : ¬ (rest.take (hb + n) ++ r').length < hb := by rw [l1]; omega
+            simp only [c1', if_false, t1, hn, c2]
+            have d1 : (rest.take (hb + n) ++ r').drop hb = (rest.take (hb + n)).drop hb ++ r' := by
+              rw [List.drop_append_of_le_length (by simp only [List.length_append, List.length_drop, List.length_take]; omega)]
+            have c3' : ¬ ((rest.take (hb + n) ++ r').drop hb).length < n := by
+              rw [d1]
+              simp only [List.length_append, List.length_drop, List.length_take]
+              omega
+            simp only [c3', if_false, Option.some.injEq, Prod.mk.injEq, Tok.mk.injEq, true_and]
+            refine ⟨⟨?_, ?_⟩, ?_⟩
+            · rw [d1, List.take_append_of_le_length (by simp only [List.length_append, List.length_drop, List.length_take]; omega)]
+              rw [List.drop_take]
+              rw [List.take_take]
+              congr 1; omega
+            · rw [List.take_append_of_le_length (by simp only [List.length_append, List.length_drop, List.length_take]; omega)]
+              rw [List.take_take]; simp
+            · rw [List.drop_append_of_le_length (by simp only [List.length_append, List.length_drop, List.length_take]; omega)]
+              have : (rest.take (hb + n)).drop (hb + n) = [] := by
+                apply List.drop_of_length_le; simp only [List.length_take]; omega
+              rw [this]; rfl
+    · simp only [hp, Bool.false_eq_true, if_false, Option.some.injEq, Prod.mk.injEq] at h
+      obtain ⟨ht, _⟩ := h
+      subst ht
+      simp only [List.cons_append, List.nil_append]
+      unfold nextTok
+      simp [hp]
+
+
+theorem tokWF_raw_ne_nil (t : Tok) (h : TokWF t) : t.raw ≠ [] := by
+  intro e
+  have := h []
+  rw [e] at this
+  simp [nextTok] at this
+
+theorem tokenize_all_wf (f : Nat) : ∀ s, ∀ t ∈ (tokenize f s).1, TokWF t := by
+  induction f with
+  | zero => intro s t ht; cases s <;> simp [tokenize] at ht
+  | succ f ih =>
+    intro s t ht
+    cases s with
+    | nil => simp [tokenize] at ht
+    | cons b bs =>
+      unfold tokenize at ht
+      cases hn : nextTok (b :: bs) with
+      | none => simp [hn] at ht
+      | some p =>
+        obtain ⟨t0, r⟩ := p
+        simp only [hn, List.mem_cons] at ht
+        rcases ht with rfl | ht
+        · exact nextTok_wf _ _ _ hn
+        · exact ih r t ht
+
+theorem tokenize_flatMap_raw (ts : List Tok) (hwf : ∀ t ∈ ts, TokWF t) :
+    ∀ f, (ts.flatMap (·.raw)).length ≤ f → tokenize f (ts.flatMap (·.raw)) = (ts, true) := by
+  induction ts with
+  | nil => intro f _; cases f <;> simp [tokenize]
+  | cons t ts ih =>
+    intro f hf
+    have hw := hwf t (by simp)
+    have hne := tokWF_raw_ne_nil t hw
+    simp only [List.flatMap_cons] at hf ⊢
+    cases hr : t.raw with
+    | nil => exact absurd hr hne
+    | cons b bs =>
+      cases f with
+      | zero => simp [hr] at hf
+      | succ f =>
+        have hnt := hw (ts.flatMap (·.raw))
+        rw [hr] at hnt
+        simp only [List.cons_append] at hnt ⊢
+        unfold tokenize
+        simp only [hnt]
+        have := ih (fun t ht => hwf t (by simp [ht])) f (by
+          simp only [hr, List.length_append, List.length_cons] at hf; omega)
+        rw [this]
+
+/-- removing tokens from a script that parses gives a script that parses to the remaining tokens -/
+theorem parse_filter (s : Bytes) (ts : List Tok) (p : Tok → Bool) (h : parse s = some ts) :
+    parse ((ts.filter p).flatMap (·.raw)) = some (ts.filter p) := by
+  have hall : ∀ t ∈ ts, TokWF t := by
+    unfold parse at h
+    cases hts : tokenize s.length s with
+    | mk ts' ok =>
+      rw [hts] at h
+      simp only at h
+      by_cases hok : ok = true
+      · simp only [hok, if_true, Option.some.injEq] at h
+        subst h
+        have := tokenize_all_wf s.length s
+        rw [hts] at this
+        exact this
+      · simp [hok] at h
+  have hwf : ∀ t ∈ ts.filter p, TokWF t := fun t ht => hall t (List.mem_filter.mp ht).1
+  unfold parse
+  rw [tokenize_flatMap_raw _ hwf _ (Nat.le_refl _)]
+  simp
+
+
+theorem parse_of_parses (s : Bytes) (h : parses s = true) : ∃ ts, parse s = some ts := by
+  unfold parses at h
+  unfold parse
+  cases hts : tokenize s.length s with
+  | mk ts ok =>
+    rw [hts] at h
+    simp only at h
+    exact ⟨ts, by simp [h]⟩
+
+theorem parses_of_parse (s : Bytes) (ts : List Tok) (h : parse s = some ts) : parses s = true := by
+  unfold parse at h
+  unfold parses
+  cases hts : tokenize s.length s with
+  | mk ts' ok =>
+    rw [hts] at h
+    simp only at h ⊢
+    cases ok <;> simp at h ⊢
+
+
 end BV.C07.Lemmas
